@@ -53,6 +53,11 @@ def configs(tier):
                     "faults": i % 4 != 1, "reorder_heavy": i % 2 == 0,
                     "dilate": i in (2, 5),
                     "max_msgs": 6 if tier == "quick" else 12})
+    # long conversations (11..16 messages each way) on a reordering server
+    out.append({"spake": "stub", "faults": True, "reorder_heavy": True,
+                "max_msgs": 16, "min_msgs": 11})
+    out.append({"spake": "stub", "faults": False, "reorder_heavy": True,
+                "max_msgs": 16, "min_msgs": 11, "reentrant": True})
     return out
 
 
